@@ -91,15 +91,17 @@ Fixpoint total_stream (A : Type) (limit inflight : nat) (total : nat) (left : op
   end.
 
 (* ------------------------------------------------------------------ correspondence runner *)
-Definition c21case := (list repo_row * list doc_row * list (list N * N) * list (N * N * list N) *
-                       list (N * list (bool * bool)) * Q *
+Definition c21case := (list repo_row * list sdoc_row * list (list N * N) * list (N * N * list N) *
+                       list (N * list (bool * bool)) *
+                       list (N * list (list bool)) *   (* engine verdicts on the section texts, per symbol regexp atom (as in c01case) *)
+                       Q *
                        list nat *                 (* matches per document in the unlimited run (0 = not returned) *)
                        nat * nat * option nat *    (* ShardMaxMatchCount (defaulted), ShardRepoMaxMatchCount, cancel_at *)
                        list (nat * list N))%type.  (* observed (repo, file) rows *)
 Definition c21_ok (cs : c21case) : bool :=
-  let '(repos, docs, langs, folds, retbl, q, wtbl, smax, rmax, cancel_at, observed) := cs in
-  let c := {| c_repos := map mk_repo repos; c_docs := map mk_doc docs; c_langs := langs |} in
-  let tl := tbl_lower folds in let ob := tbl_orbit folds in let re := tbl_re (c_docs c) retbl in
+  let '(repos, docs, langs, folds, retbl, symtbl, q, wtbl, smax, rmax, cancel_at, observed) := cs in
+  let c := {| c_repos := map mk_repo repos; c_docs := map mk_sdoc docs; c_langs := langs |} in
+  let tl := tbl_lower folds in let ob := tbl_orbit folds in let re := tbl_re_sym (c_docs c) retbl symtbl in
   let res := search_limited re tl ob c (count_freq ob c) (fun k _ => nth k wtbl 0)
                             {| shard_max := smax; repo_max := rmax |} cancel_at q in
   let row k := let d := nth k (c_docs c) dflt_doc in (d_repo d, d_name d) in
